@@ -73,6 +73,25 @@ let () =
     match unescape l with
     | UOk r -> ps "ok"; plist (fun (isr, v) -> pb isr; pz v) r
     | UPanic -> ps "panic");
+  (* classtoks <neg> <n> (<isdash> <bytes>)*: the class the front end builds from the tokens of one [...]:
+     toRune per CLASS_CHAR (class_char_rune), x-y pairing (class_items), GetRanges *)
+  reg "classtoks" (fun c ->
+    let neg = bool c in
+    let toks = list (fun c -> let d = bool c in let bs = list z c in (d, bs)) c in
+    let rec conv = function
+      | [] -> Some []
+      | (d, bs) :: r ->
+        (match (if d then Some (z_of_int 45) else class_char_rune bs), conv r with
+         | Some v, Some l -> Some ((d, v) :: l)
+         | _, _ -> None) in
+    match conv toks with
+    | None -> ps "panic"
+    | Some cts ->
+      let items = class_items cts in
+      ps "items"; plist prange items;
+      (match get_ranges (CClass (neg, items)) with
+       | Some r -> ps "some"; plist prange r
+       | None -> ps "none"));
   (* escape <kind> <bytes>: kind 0 = LITERAL token (fix_literal), 1 = CLASS_CHAR token (unescape), 2 = raw unescape;
      prints the recogniser's verdict for the kind, then ok+bytes or panic *)
   reg "escape" (fun c ->
